@@ -9,7 +9,7 @@ ASSUME = ['demonic oracle (kani/src/oracle.rs): any correct SatSolver may return
 def run(tier, seed):
     return kani_check.run("C03", ["c03_"], tier, seed, dict(
         functions=FUNCS, bounds="skeptical acceptance (DS) without certificate: stable and grounded (GR, DS-CO) solvers; " + BOUNDS, assumptions=ASSUME),
-        jobs=4, timeout_s=1500 if tier == "quick" else 5400)
+        jobs=6)
 
 
 def replay(path):
